@@ -182,6 +182,7 @@ type engSession struct {
 	proj  string // which projection of the state is compared: "all", "C01", "C02", "C03", "C08", "C10", "C17"
 	stat  map[string]int
 	seq   int
+	maskOverride int // >0: statistics mask for EUpdate
 }
 
 var sessionCounter int
@@ -550,6 +551,9 @@ func (s *engSession) update(now uint64) (int64, flap.UpdateBackfillStats) {
 		mask = 2 | 4 | 8
 	case "C04":
 		mask = 1 | 2 | 8 | 16
+	}
+	if s.maskOverride > 0 {
+		mask = s.maskOverride
 	}
 	s.coq = append(s.coq, fmt.Sprintf("EUpdate %d %s %d %d (mkStatsZ %d %d %d %d %d %s %s %s %s)", now, List(fit), code, mask,
 		st.Grounded, st.Travellers, fbits(float64(st.Distance)), st.Flights, fbits(float64(st.Share)), fl(cdd), List(cdays), fl(st.BestFitPoints), fl(st.BestFitConsts)))
